@@ -4,12 +4,15 @@ with the shared `.params`, satisfies `J`" holds at every prefix of the invocatio
 invocation from such a state completes with the final files of every experiment complete and correct.
 -/
 import IsoVerif.Lemmas.ResumeHistory
+import IsoVerif.Lemmas.ResumeRefFrame
 import IsoVerif.Model.ResumeMulti
 
 namespace IsoVerif.Lemmas.Resume
 open IsoVerif.Model.Resume
 
 /-! ### views -/
+
+theorem isRefPath_eq (p : Path) : isRefPath p = isRefAux p := by cases p <;> rfl
 
 theorem view_apply_self (m : MFS) (i : Nat) (e : Ev) : (m.apply i e).view i = apply (m.view i) e := by
   funext p
@@ -18,21 +21,78 @@ theorem view_apply_self (m : MFS) (i : Nat) (e : Ev) : (m.apply i e).view i = ap
   · simp only [he, if_true]
     by_cases hp : p = .params <;> simp [hp]
   · simp only [he, if_false]
-    by_cases hp : p = .params
-    · subst hp; simp [Ne.symm he]
-    · simp [hp, FS.set]
+    by_cases hr : isRefPath e.path = true
+    · simp only [hr, if_true]
+      by_cases hp : p = .params
+      · subst hp; simp [Ne.symm he]
+      · simp only [hp, if_false, apply, FS.set]
+        by_cases hpe : p = e.path
+        · subst hpe; simp [hr]
+        · simp [hpe]
+    · simp only [hr, if_false]
+      by_cases hp : p = .params
+      · subst hp; simp [Ne.symm he]
+      · simp only [hp, if_false]
+        by_cases hpe : p = e.path
+        · subst hpe; simp [hr, apply, FS.set]
+        · simp [hpe, apply, FS.set]
 
-/-- an event of experiment `i` that leaves `.params` complete does not change what another experiment sees -/
-theorem view_apply_other (m : MFS) {i j : Nat} (e : Ev) (hne : j ≠ i) (h0 : m.params = some .good)
-    (h1 : (m.apply i e).params = some .good) : (m.apply i e).view j = m.view j := by
+/-- an event on a file of the reference stage is seen by every experiment -/
+theorem view_apply_ref (m : MFS) (i j : Nat) (e : Ev) (hr : isRefPath e.path = true) :
+    (m.apply i e).view j = apply (m.view j) e := by
+  have he : e.path ≠ .params := by intro h; rw [h] at hr; simp [isRefPath] at hr
+  funext p
+  simp only [MFS.apply, MFS.view, apply, FS.set, he, hr, if_false, if_true]
+  by_cases hp : p = .params
+  · subst hp; simp [Ne.symm he]
+  · simp only [hp, if_false]
+    by_cases hpe : p = e.path
+    · subst hpe; simp [hr]
+    · simp [hpe]
+
+/-- an event of experiment `i` that is not on a file of the reference stage and leaves `.params` complete does not change
+    what another experiment sees -/
+theorem view_apply_other (m : MFS) {i j : Nat} (e : Ev) (hne : j ≠ i) (hr : isRefPath e.path = false)
+    (h0 : m.params = some .good) (h1 : (m.apply i e).params = some .good) : (m.apply i e).view j = m.view j := by
   funext p
   by_cases hp : p = .params
   · subst hp; simp only [MFS.view, if_true, h0, h1]
   · simp only [MFS.view, hp, if_false]
-    simp only [MFS.apply]
-    split
-    · rfl
-    · simp [hne]
+    by_cases he : e.path = .params
+    · simp [MFS.apply, he]
+    · simp only [MFS.apply, he, hr, if_false, Bool.false_eq_true]
+      split
+      · rfl
+      · simp [hne]
+
+/-- an event changes no view at another path -/
+theorem view_apply_priv (m : MFS) (i j : Nat) (e : Ev) {p : Path} (hp : p ≠ e.path) : (m.apply i e).view j p = m.view j p := by
+  by_cases he : e.path = .params
+  · have : p ≠ .params := by rw [← he]; exact hp
+    simp [MFS.apply, MFS.view, he, this]
+  · by_cases hr : isRefPath e.path = true
+    · simp only [MFS.apply, MFS.view, he, hr, if_false, if_true]
+      split
+      · rfl
+      · split
+        · simp [apply, FS.set, hp]
+        · rfl
+    · simp only [MFS.apply, MFS.view, he, hr, if_false]
+      split
+      · rfl
+      · split
+        · rfl
+        · by_cases hj : j = i
+          · subst hj; simp [apply, FS.set, hp]
+          · simp [hj]
+
+/-- the shared files look the same from every experiment -/
+theorem view_shared (m : MFS) (i j : Nat) {p : Path} (hp : p = .params ∨ isRefPath p = true) : m.view i p = m.view j p := by
+  rcases hp with rfl | hp
+  · simp [MFS.view]
+  · by_cases h : p = .params
+    · subst h; simp [MFS.view]
+    · simp [MFS.view, h, hp]
 
 theorem view_params (m : MFS) (i : Nat) : (m.view i).good .params = (m.params == some .good) := by
   simp [MFS.view, FS.good]
@@ -91,7 +151,8 @@ theorem J_params {cfg : Cfg} {m : MFS} {i : Nat} (h : J cfg (m.view i)) : m.para
 /-- the events of one experiment, performed in its own folder: when they keep `J` of that experiment at every prefix,
     they keep the invariant of all experiments at every prefix, and the other experiments see nothing of them -/
 theorem mall_exp {all : List Exp} {i : Nat} {cfg : Cfg} (hmem : ∀ x ∈ all, x.1 = i → x.2.1 = cfg)
-    (es : List Ev) {m : MFS} (hinv : MInv all m) (hJ : AllP (J cfg) (m.view i) es) :
+    (es : List Ev) (hnr : ∀ e ∈ es, isRefPath e.path = false) {m : MFS} (hinv : MInv all m)
+    (hJ : AllP (J cfg) (m.view i) es) :
     MAllP (MInv all) m (es.map (fun e => (i, e))) ∧
       (mApplyAll m (es.map (fun e => (i, e)))).view i = applyAll (m.view i) es ∧
       ∀ j, j ≠ i → (mApplyAll m (es.map (fun e => (i, e)))).view j = m.view j := by
@@ -101,17 +162,72 @@ theorem mall_exp {all : List Exp} {i : Nat} {cfg : Cfg} (hmem : ∀ x ∈ all, x
     have hJ' : AllP (J cfg) ((m.apply i e).view i) es := by rw [view_apply_self]; exact hJ.2
     have hp0 : m.params = some .good := J_params (AllP_head hJ)
     have hp1 : (m.apply i e).params = some .good := J_params (AllP_head hJ')
+    have hre : isRefPath e.path = false := hnr e (by simp)
     have hinv' : MInv all (m.apply i e) := by
       intro x hx
       by_cases hxi : x.1 = i
       · rw [hxi, hmem x hx hxi]; exact AllP_head hJ'
-      · rw [view_apply_other m e hxi hp0 hp1]; exact hinv x hx
-    obtain ⟨a, b, c⟩ := ih hinv' hJ'
+      · rw [view_apply_other m e hxi hre hp0 hp1]; exact hinv x hx
+    obtain ⟨a, b, c⟩ := ih (fun e' he' => hnr e' (by simp [he'])) hinv' hJ'
     refine ⟨⟨hinv, a⟩, ?_, ?_⟩
     · simp only [List.map_cons, mApplyAll, applyAll]; rw [b, view_apply_self]
     · intro j hj
       simp only [List.map_cons, mApplyAll]
-      rw [c j hj, view_apply_other m e hj hp0 hp1]
+      rw [c j hj, view_apply_other m e hj hre hp0 hp1]
+
+/-- events on files of the reference stage (the reference stage of the invocation): every experiment sees all of them;
+    when they keep `J` of every experiment at every prefix, they keep the invariant of all experiments at every prefix -/
+theorem mall_ref {all : List Exp} (es : List Ev) (hr : ∀ e ∈ es, isRefPath e.path = true) {m : MFS}
+    (hJ : ∀ x ∈ all, AllP (J x.2.1) (m.view x.1) es) :
+    MAllP (MInv all) m (es.map (fun e => (0, e))) ∧
+      ∀ j, (mApplyAll m (es.map (fun e => (0, e)))).view j = applyAll (m.view j) es := by
+  induction es generalizing m with
+  | nil => exact ⟨fun x hx => hJ x hx, fun _ => rfl⟩
+  | cons e es ih =>
+    have hre := hr e (by simp)
+    obtain ⟨a, b⟩ := ih (m := m.apply 0 e) (fun e' he' => hr e' (by simp [he']))
+      (fun x hx => by rw [view_apply_ref m 0 x.1 e hre]; exact (hJ x hx).2)
+    refine ⟨⟨fun x hx => AllP_head (hJ x hx), a⟩, fun j => ?_⟩
+    simp only [List.map_cons, mApplyAll, applyAll]
+    rw [b j, view_apply_ref m 0 j e hre]
+
+/-! ### the reference stage of the invocation -/
+
+/-- what the reference stage does depends on the two reference flags of the configuration and on the index file only -/
+theorem refEvents_congr {cfg cfg' : Cfg} {fs fs' : FS} (h1 : cfg.gzRef = cfg'.gzRef) (h2 : cfg.idx = cfg'.idx)
+    (h3 : fs .refFai = fs' .refFai) : refEvents cfg fs = refEvents cfg' fs' := by
+  simp only [refEvents, copyEvents, indexEvents, idxTrusted, FS.has, h1, h2, h3]
+  rfl
+
+/-- the experiments read one reference: the same two reference flags in every configuration -/
+def SameRef (all : List Exp) : Prop := ∀ x ∈ all, ∀ y ∈ all, x.2.1.gzRef = y.2.1.gzRef ∧ x.2.1.idx = y.2.1.idx
+
+/-- the reference stage of the invocation (repaired code), from a state satisfying the invariant of every experiment:
+    it completes, the invariant of **all** experiments holds at every prefix of its events, and afterwards every
+    experiment reads the right reference (`refOK`) -/
+theorem runRef_good {all : List Exp} (rs : Bool) (hsr : SameRef all) {m : MFS} (hinv : MInv all m) :
+    (runRef fixed rs all m).ok = true ∧
+      MAllP (MInv all) m ((runRef fixed rs all m).evs.map (fun e => (0, e))) ∧
+      ∀ x ∈ all, refOK x.2.1 ((mApplyAll m ((runRef fixed rs all m).evs.map (fun e => (0, e)))).view x.1) = true := by
+  cases all with
+  | nil => exact ⟨rfl, hinv, fun x hx => by simp at hx⟩
+  | cons x l =>
+    obtain ⟨gx, ex, _, _⟩ := ref_stage rs (hinv x (by simp))
+    have hev : (runRef fixed rs (x :: l) m).evs = refEvents x.2.1 (m.view x.1) := ex
+    have hsame : ∀ y ∈ x :: l, refEvents y.2.1 (m.view y.1) = refEvents x.2.1 (m.view x.1) := fun y hy =>
+      refEvents_congr (hsr y hy x (by simp)).1 (hsr y hy x (by simp)).2 (view_shared m y.1 x.1 (Or.inr rfl))
+    have hpaths : ∀ e ∈ refEvents x.2.1 (m.view x.1), isRefPath e.path = true := by
+      intro e he
+      rw [isRefPath_eq]
+      rw [← ex] at he
+      exact refStage_paths fixed x.2.1 rs (m.view x.1) e (runActs_evs_sub _ _ e he)
+    obtain ⟨a, b⟩ := mall_ref (all := x :: l) (refEvents x.2.1 (m.view x.1)) hpaths (m := m) (fun y hy => by
+      obtain ⟨gy, ey, _, _⟩ := ref_stage rs (hinv y hy)
+      rw [← hsame y hy, ← ey]; exact gy.2)
+    rw [hev]
+    refine ⟨gx.1, a, fun y hy => ?_⟩
+    obtain ⟨_, ey, _, ry⟩ := ref_stage rs (hinv y hy)
+    rw [b y.1, ← hsame y hy, ← ey, ← runActs_fs]; exact ry
 
 /-! ### the experiments one after the other -/
 
@@ -119,9 +235,9 @@ theorem mall_exp {all : List Exp} {i : Nat} {cfg : Cfg} (hmem : ∀ x ∈ all, x
     completes, the invariant holds at every prefix, and the final files of every experiment processed end up good -/
 theorem runExps_good {all : List Exp} (rs : Bool) (exps : List Exp)
     (hsub : ∀ x ∈ exps, x ∈ all) (hnd : (exps.map (fun x => x.1)).Nodup)
-    (hwf : ∀ x ∈ all, WF x.2.1 ∧ (x.2.1.fromSaves = false ∧ x.2.1.gzRef = false ∧ x.2.1.idx = false) ∧ x.2.2.Nodup)
+    (hwf : ∀ x ∈ all, WF x.2.1 ∧ x.2.1.fromSaves = false ∧ x.2.2.Nodup)
     (hcfg : ∀ x ∈ all, ∀ y ∈ all, x.1 = y.1 → x.2.1 = y.2.1)
-    {m : MFS} (hinv : MInv all m) :
+    {m : MFS} (hinv : MInv all m) (href : ∀ x ∈ all, refOK x.2.1 (m.view x.1) = true) :
     (runExps fixed rs exps m).ok = true ∧ MAllP (MInv all) m (runExps fixed rs exps m).evs ∧
       (runExps fixed rs exps m).fs = mApplyAll m (runExps fixed rs exps m).evs ∧
       (∀ x ∈ exps, FinOK x.2.1 ((runExps fixed rs exps m).fs.view x.1)) ∧
@@ -131,8 +247,8 @@ theorem runExps_good {all : List Exp} (rs : Bool) (exps : List Exp)
   | cons x exps ih =>
     obtain ⟨i, cfg, ord⟩ := x
     have hx := hsub (i, cfg, ord) (by simp)
-    obtain ⟨wf, ⟨hm, hgz, hix⟩, hord⟩ := hwf _ hx
-    simp only at wf hm hgz hix hord
+    obtain ⟨wf, hm, hord⟩ := hwf _ hx
+    simp only at wf hm hord
     have hJ : J cfg (m.view i) := hinv _ hx
     have hnd' := List.nodup_cons.mp hnd
     -- the experiment in its own folder
@@ -144,13 +260,23 @@ theorem runExps_good {all : List Exp} (rs : Bool) (exps : List Exp)
       (by intro e _ e'; subst e'; simpa using e)
       (by intro e; rw [hm] at e; exact absurd e (by simp))
       (by intro e; rw [hm] at e; exact absurd e (by simp))
-      (by simp [refOK, hgz, hix])
-    rw [← hst] at hg hfin
-    generalize hr : runStages ((stages fixed cfg ord rs (rs && (m.view i).has .lock)).drop 2) (m.view i) = r at hg hfin
-    obtain ⟨a, b, c⟩ := mall_exp (cfg := cfg) (fun y hy e => hcfg y hy _ hx e) r.evs hinv hg.2
+      (href _ hx)
+    have hnr := restStages_noref cfg ord rs ((rs && (m.view i).has .lock) || cfg.fromSaves) (m.view i)
+    rw [← hst] at hg hfin hnr
+    generalize hr : runStages ((stages fixed cfg ord rs (rs && (m.view i).has .lock)).drop 2) (m.view i) = r at hg hfin hnr
+    obtain ⟨a, b, c⟩ := mall_exp (cfg := cfg) (fun y hy e => hcfg y hy _ hx e) r.evs
+      (fun e he => by rw [isRefPath_eq]; exact hnr e he) hinv hg.2
     have hfs : r.fs = applyAll (m.view i) r.evs := by rw [← hr]; exact runStages_fs _ _
     have hinv' : MInv all (mApplyAll m (r.evs.map (fun e => (i, e)))) := MAllP_last a
-    obtain ⟨ok2, all2, fs2, fin2, fr2⟩ := ih (fun y hy => hsub y (by simp [hy])) hnd'.2 hinv'
+    have href' : ∀ y ∈ all, refOK y.2.1 ((mApplyAll m (r.evs.map (fun e => (i, e)))).view y.1) = true := by
+      intro y hy
+      have hfr : ∀ p, isRefAux p = true → (mApplyAll m (r.evs.map (fun e => (i, e)))).view y.1 p = m.view y.1 p := by
+        intro p hp
+        have hp' : isRefPath p = true := by rw [isRefPath_eq]; exact hp
+        rw [view_shared _ y.1 i (Or.inr hp'), b, view_shared m y.1 i (Or.inr hp')]
+        exact applyAll_outside isRefAux _ _ hnr p hp
+      rw [refOK_frame (hfr _ rfl) (hfr _ rfl)]; exact href y hy
+    obtain ⟨ok2, all2, fs2, fin2, fr2⟩ := ih (fun y hy => hsub y (by simp [hy])) hnd'.2 hinv' href'
     simp only [runExps, hr, hg.1, if_true]
     refine ⟨ok2, ?_, ?_, ?_, ?_⟩
     · rw [MAllP_append]; exact ⟨a, all2⟩
